@@ -20,6 +20,26 @@ mod metrics;
 mod search;
 mod table;
 
+/// Test-only handles for the verification harness in /verif.
+#[cfg(inkayaku_verif)]
+pub mod verif {
+    use inkayaku_board::Bitboard;
+
+    use crate::engine::heuristic::Heuristic;
+    use crate::engine::heuristic::simple::SimpleHeuristic;
+    use crate::engine::search::EngineOptions;
+
+    pub use crate::engine::table::verif_table::VerifTable;
+    pub use crate::engine::zobrist_history::ZobristHistory as VerifHistory;
+
+    /// the static evaluation the search uses at its leaves (white-centric)
+    pub fn static_eval(board: &Bitboard, legal_moves_remaining: bool) -> i32 {
+        SimpleHeuristic.evaluate(board, board.calculate_zobrist_pawn_hash(), legal_moves_remaining)
+    }
+
+    pub fn contempt() -> i32 { EngineOptions::default().contempt_factor }
+}
+
 pub struct Engine<T: UciTx + Send + Sync + 'static> {
     uci_tx: Arc<T>,
     debug: bool,
